@@ -12,12 +12,12 @@ using namespace vf;
 
 enum { S_NEW2, S_NEW3, S_NEW6, S_DESTROY, S_INI_OTHER, S_XLIN, S_XLOG, S_XLOG_BAD, S_XVEC, S_XVEC_UNSORTED, S_XVEC_WRONGSIZE, S_XTYPE_BAD,
        S_EVOLVE_NONUM, S_EVOLVE_NUM, S_EVOLVE_MSADAMS, S_EVOLVE_GSLFAIL, S_EXPECT_NODE, S_EXPECT_IN, S_EXPECT_OUT_HI, S_EXPECT_OUT_LO, S_EXPECT_AVG, S_INTER_IN, S_INTER_OUT,
-       S_GETI_IN, S_GETI_OUT, S_MOVE_CTOR, S_MOVE_ASSIGN_FRESH, S_MOVE_ASSIGN_USED, V_FROM_STATE, V_SIZED4, V_INTO_STATE, V_RESET, NOPS };
+       S_GETI_IN, S_GETI_OUT, S_MOVE_CTOR, S_MOVE_ASSIGN_FRESH, S_MOVE_ASSIGN_USED, V_FROM_STATE, V_SIZED4, V_INTO_STATE, V_RESET, S_REGRID_FEWER, NOPS };
 static const char* NAME[] = {"new solver(nx=2,d=2)", "new solver(nx=3,d=3)", "new solver(nx=1,d=6)", "destroy solver", "ini(other dims)", "Set_xrange lin", "Set_xrange log", "Set_xrange log xmin<=0 [throws]", "Set_xrange(vector)",
                              "Set_xrange(unsorted) [throws]", "Set_xrange(wrong size) [throws]", "Set_xrange bad scale [throws]", "Evolve without numerics", "Evolve rkf45", "Evolve msadams", "Evolve fixed step, impossible tolerance [throws]",
                              "GetExpectationValue(node)", "GetExpectationValueD(inside)", "GetExpectationValueD(above) [throws]", "GetExpectationValueD(below) [throws]", "GetExpectationValueD(avg)", "GetIntermediateState(inside)",
                              "GetIntermediateState(outside) [throws]", "Get_i(inside)", "Get_i(outside) [throws]", "move-construct solver", "move-assign solver into fresh", "move-assign solver into used", "vector = state rho",
-                             "vector = SU_vector(4)", "state rho = vector [may throw]", "vector reset"};
+                             "vector = SU_vector(4)", "state rho = vector [may throw]", "vector reset", "wide log grid; ini(fewer nodes); Set_xrange lin"};
 
 struct Pool { std::unique_ptr<Probe> s; SU_vector v; bool xset = false; };
 
@@ -47,6 +47,9 @@ static int apply(Pool& P, int op, std::string& what) {
       case S_NEW6: P.s = mk(1, 6); P.xset = false; break;
       case S_DESTROY: P.s.reset(); P.xset = false; break;
       case S_INI_OTHER: { int d = P.s->P.d == 2 ? 4 : 2, nx = P.s->P.nx == 2 ? 3 : 2; Problem p = prob(nx, d); P.s->ini(nx, d, p.nrho, p.nsc, 1.0); P.s->P = p; P.s->set_flat(probe_state(p, 1)); P.xset = false; } break;
+      case S_REGRID_FEWER: { if (P.s->P.nx < 2) { P.s->Set_xrange(1.0, 4.0, "linear"); P.xset = true; break; }
+        P.s->Set_xrange(0.5, 400.0, "log"); int nx = std::max(2, P.s->P.nx - 1), d = P.s->P.d; Problem p = prob(nx, d); P.s->ini(nx, d, p.nrho, p.nsc, 1.0); P.s->P = p; P.s->set_flat(probe_state(p, 1));
+        P.s->Set_xrange(1.0, 4.0, "linear"); P.xset = true; } break;
       case S_XLIN: P.s->Set_xrange(1.0, 4.0, "linear"); P.xset = true; break;
       case S_XLOG: P.s->Set_xrange(0.5, 40.0, "log"); P.xset = true; break;
       case S_XLOG_BAD: must_throw = true; P.s->Set_xrange(0.0, 4.0, "log"); break;
